@@ -1,3 +1,4 @@
+//go:build verif
 // +build verif
 
 package raft
@@ -14,9 +15,9 @@ import (
 func scenElect(voters []uint64, nonvoters []uint64, maxTerm uint64, dev int, crashes int) *simScenario {
 	n := len(voters) + len(nonvoters)
 	sc := &simScenario{
-		Name: "elect-" + joinU(voters),
-		Opt:  worldOpt{Nodes: n, Voters: voters, Nonvoters: nonvoters, EagerFSM: true, EagerLU: true, EagerConnect: true, Disconnects: true},
-		Menu: simMenu{Timeouts: true, MaxTerm: maxTerm, Drops: true, Dups: true, Crashes: crashes > 0},
+		Name:    "elect-" + joinU(voters),
+		Opt:     worldOpt{Nodes: n, Voters: voters, Nonvoters: nonvoters, EagerFSM: true, EagerLU: true, EagerConnect: true, Disconnects: true},
+		Menu:    simMenu{Timeouts: true, MaxTerm: maxTerm, Drops: true, Dups: true, Crashes: crashes > 0},
 		MaxDev:  dev,
 		Crashes: crashes,
 		Final:   "adversary",
